@@ -61,9 +61,9 @@ def gen_ring(rng, n):
 
 def common_params(rng, strat, ind):
     individuals = rng.choice([4, 4, 5, 6, 8, 12, 20, 33, 60])
-    # std / DE recombination reads parent[1]: tournament_size = 1 is only exercised by the
-    # selection-only component cases and by corpus/C06/tournament1.cases (known finding)
-    tour = rng.choice([2, 2, 3, 4, individuals, min(individuals, 7)])
+    # tournament_size = 1 ("selecting individuals at random"): recombination picks the mate itself
+    # (fix 3f50779; before, recombination::base / de read parent[1] of a one-element vector)
+    tour = rng.choice([1, 2, 2, 3, 4, individuals, min(individuals, 7)])
     tour = min(tour, individuals)
     mz = rng.choice([tour, tour + 1, max(tour, individuals // 2), individuals, individuals + 5, 20, 4294967295])
     mz = max(mz, tour)
@@ -103,7 +103,7 @@ def gen_comp(rng, n, count):
         if strat == "alps" and ind == "de":
             strat = p["strat"] = "alps"
         what = rng.choice(["sel", "repl", "repl", "family"]) if strat != "alps" else rng.choice(["sel", "repl", "repl"])
-        if what == "sel" and rng.chance(0.25):
+        if what in ("sel", "repl") and rng.chance(0.25):
             p["tournament"] = 1
         p["what"] = what
         p["count"] = count
@@ -143,8 +143,7 @@ def gen_search(rng, n):
              "cache": rng.choice([0, 8]), "fitk": rng.choice([1, 5, 50]),
              "open_tournament": rng.choice([0, 1]), "open_mate_zone": rng.choice([0, 1]),
              "open_elitism": rng.choice([0, 1]), "open_rates": rng.choice([0, 1]), "open_brood": rng.choice([0, 1])}
-        if p["open_tournament"] and not p["open_mate_zone"]:
-            p["mate_zone"] = max(p["mate_zone"], 5)     # the default tournament_size is 5
+        # (an open tournament_size is filled with min(5, individuals, mate_zone): fix 670c717)
         out.append(fmt("search", p))
     return out
 
